@@ -16,6 +16,7 @@ from amaranth import *  # noqa: F403
 from amaranth.sim import Simulator
 
 from .extract import Built
+from .analysis import enable_value
 
 MAX_EXHAUSTIVE_BITS = 12
 
@@ -186,8 +187,7 @@ def impl_line(b: Built, o: Obs) -> str:
     sites = [top.sites[i] for i in range(len(top.sites))]
     act = []
     for i, r in enumerate(sites):
-        e = r.stmt.get("enable")
-        act.append(o.w[i] & (o.inputs.get(e, 0) if e is not None else 1))
+        act.append(o.w[i] & enable_value(r.stmt, o.inputs))
     ts = sorted(b.trans_ids)
     ms = sorted(b.meth_ids)
     return (
